@@ -5,6 +5,7 @@ sys.path.insert(0, os.path.dirname(os.path.abspath(__file__)))
 import lib
 from lib import VERIF, REPO
 import props
+import meta
 
 TRUSTED_BASE = [
     'Coq 8.16.1 kernel (coqc), including vm_compute for the finite sweeps and Examples; no native_compute',
@@ -81,7 +82,7 @@ def main():
     seed = int(os.environ.get('VERIF_SEED', '20260929'))
     t0 = time.time()
     spec = props.PROPS[prop]
-    level = spec.get('level', 'proof')
+    level = meta.META[prop]['level']
     evidence = {'property_id': prop, 'tier': tier, 'seed': seed, 'level': level, 'wall_s': 0.0,
                 'coverage': {}, 'assumptions': [], 'violations': 0}
     out_lines = []
